@@ -42,7 +42,12 @@ def make_material(m):
         from srlife import library
         return library.load_deformation(m["name"], m["variant"]).get_neml_model()
     E, nu = fl(m["E"]), fl(m["nu"])
-    emodel = elasticity.IsotropicLinearElasticModel(E, "youngs", nu, "poissons")
+    if m.get("E_T"):
+        # temperature-dependent Young's modulus (piecewise linear table)
+        Ei = interpolate.PiecewiseLinearInterpolate([fl(x) for x in m["E_T"]], [fl(x) for x in m["E_v"]])
+        emodel = elasticity.IsotropicLinearElasticModel(Ei, "youngs", interpolate.ConstantInterpolate(nu), "poissons")
+    else:
+        emodel = elasticity.IsotropicLinearElasticModel(E, "youngs", nu, "poissons")
     aT, av = [fl(x) for x in m["alpha_T"]], [fl(x) for x in m["alpha_v"]]
     if len(aT) == 1:
         alpha = interpolate.ConstantInterpolate(av[0])
